@@ -418,10 +418,21 @@ class TrajectoryConstraintsRemover(engines.engine.Engine, CompilerMixin):
         disjunction = []
         for eff in action.effects:
             cond = eff.condition
-            if eff.value.is_false():
+            value = eff.value
+            if value.is_false():
                 eff = env.expression_manager.Not(eff.fluent)
-            else:
+            elif value.is_true():
                 eff = eff.fluent
+            elif literal.is_not():
+                # non-constant value: the negative literal is achieved when the value is false
+                eff = env.expression_manager.Not(eff.fluent)
+                cond = env.expression_manager.And(
+                    cond, env.expression_manager.Not(value)
+                )
+            else:
+                # non-constant value: the positive literal is achieved when the value is true
+                eff = eff.fluent
+                cond = env.expression_manager.And(cond, value)
             if literal == eff:
                 if cond.is_true():
                     return env.expression_manager.TRUE()
